@@ -268,6 +268,8 @@ Proof.
     eapply run_op_next; eauto.
   - destruct (negb (s_deployed st)); [cbn; lia|]. destruct (do_check_auth _ _ _ _ _ _); cbn; lia.
   - destruct (negb (s_deployed st)); [cbn; lia|]. destruct (do_check_auth _ _ _ _ _ _); cbn; lia.
+  - destruct (negb (s_deployed st)); [cbn; lia|]. destruct (do_check_auth _ _ _ _ _ _); [|cbn; lia].
+    destruct ((1 <=? t) && (t <=? nsig)); cbn; lia.
 Qed.
 
 Lemma step_undeployed_acct c st cl :
@@ -284,6 +286,8 @@ Proof.
     destruct (run_op _ c (s_acct st) (s_now st) op) as [[[a1 ret] l2]|]; cbn; congruence.
   - destruct (negb (s_deployed st)); [cbn; auto|]. destruct (do_check_auth _ _ _ _ _ _); cbn; auto.
   - destruct (negb (s_deployed st)); [cbn; auto|]. destruct (do_check_auth _ _ _ _ _ _); cbn; auto.
+  - destruct (s_deployed st) eqn:D; cbn [negb]; [|cbn; auto]. destruct (do_check_auth _ _ _ _ _ _); [|cbn; congruence].
+    destruct ((1 <=? t) && (t <=? nsig)); cbn; congruence.
 Qed.
 
 Lemma mon_next_fields m cl out ob :
@@ -321,6 +325,8 @@ Proof.
         cbn [observe ob_now]; rewrite Z.eqb_refl; reflexivity.
     + destruct (do_check_auth _ _ _ _ _ _); cbn [fst snd]; rewrite same_table_acct by reflexivity;
         cbn [observe ob_now]; rewrite Z.eqb_refl; reflexivity.
+    + destruct (do_check_auth _ _ _ _ _ _); [destruct ((1 <=? t) && (t <=? nsig))|]; cbn [fst snd];
+        rewrite same_table_acct by reflexivity; cbn [observe ob_now]; rewrite Z.eqb_refl; reflexivity.
   - (* not yet deployed *)
     destruct cl; cbn [step]; rewrite ?D; cbn [negb fst snd]; try reflexivity.
     + revert Tok W' W2'. cbn [step]. rewrite D.
